@@ -227,6 +227,11 @@ fn framings() -> Vec<Framing> {
     v.push(Framing { prio: Some((true, 5, 7)), pad: Some(7), splits: vec![2], ..Default::default() });
     v.push(Framing { splits: vec![1], ..Default::default() });
     v.push(Framing { splits: vec![2, 5], ..Default::default() });
+    // undefined flag bits on the CONTINUATION frames (the ones that mean PADDED / PRIORITY / END_STREAM on HEADERS)
+    for cf in [0x08u8, 0x20, 0x29, 0xfb] {
+        v.push(Framing { splits: vec![2], cont_flags: cf, ..Default::default() });
+        v.push(Framing { splits: vec![1, 4], cont_flags: cf, pad: Some(2), ..Default::default() });
+    }
     v
 }
 fn settings_lists(thorough: bool) -> Vec<Vec<(u16, u32)>> {
